@@ -92,6 +92,7 @@ type Summary struct {
 	Models      map[string]int
 	PathEnds    map[string]int
 	Bounds      map[string]int64
+	Vary        []string
 	MustCover   map[string]bool
 	SitesStatic []string
 	SitesHit    map[string]int
@@ -365,6 +366,10 @@ func runHarness(prog *ssa.Program, models map[string]*ssa.Function, hp *ssa.Pack
 	sum := &Summary{Harness: fn.Name(), Paths: e.paths, Instrs: atomic.LoadInt64(&e.instrs), Asserts: e.asserts, AssertsOK: e.assertsOK, Findings: e.findings,
 		FuncsSeen: e.funcsSeen, Models: e.usedModel, PathEnds: e.pathEnds, Bounds: e.bounds, MustCover: e.mustCover, SitesHit: e.sitesHit, Witnesses: e.pathWitness,
 		Wall: time.Since(t0), Ifconv: e.ifconv, UnwindChk: e.unwindChecked, UnwindFail: e.unwindFailed, FeasUnknown: e.feasUnknown, GoSpawned: e.goSpawned, GoBlocked: e.goBlockedAtEnd, PanicsChk: e.panicsChecked}
+	for k := range e.vary {
+		sum.Vary = append(sum.Vary, k)
+	}
+	sort.Strings(sum.Vary)
 	if verbose {
 		for i, f := range e.findings {
 			if i < 12 {
@@ -401,6 +406,7 @@ type ReplayFile struct {
 	Site     string        `json:"site,omitempty"`
 	Retries  int           `json:"retries,omitempty"` // native attempts (map-order dependent counterexamples)
 	Tier     string        `json:"tier,omitempty"`    // tier whose bounds (zz.Thorough) the harness ran with
+	Vary     []string      `json:"vary,omitempty"`    // inputs of uninterpreted hashes: the native replay may search them
 	Values   []ReplayValue `json:"values"`
 }
 
@@ -685,7 +691,7 @@ func doCheck(id, tier, only string, verbose bool, workers, seed int, noNative bo
 				order = append(order, key)
 			}
 			if len(g.replays) < 3 {
-				rf := ReplayFile{Property: id, Harness: s.Harness, Package: dirOf[s.Harness], Expect: f.Kind, Msg: f.Msg, Known: f.Known, Site: f.Site, Retries: retriesFor(f.Nondets), Tier: tier, Values: modelValues(f.Nondets, f.Model)}
+				rf := ReplayFile{Property: id, Harness: s.Harness, Package: dirOf[s.Harness], Expect: f.Kind, Msg: f.Msg, Known: f.Known, Site: f.Site, Retries: retriesFor(f.Nondets), Tier: tier, Vary: s.Vary, Values: modelValues(f.Nondets, f.Model)}
 				p := filepath.Join(outDir, "replay", fmt.Sprintf("%s-%s-%d-%d.json", id, s.Harness, len(order), len(g.replays)))
 				b, _ := json.MarshalIndent(rf, "", " ")
 				os.WriteFile(p, b, 0644)
